@@ -126,6 +126,16 @@ SENTINEL_INSTANTS = ((2000, 1, 1, 0, 0, 0), (1970, 1, 1, 0, 0, 0), (1900, 1, 1, 
                      (2024, 1, 1, 0, 0, 0), (2024, 12, 31, 23, 59, 59), (2000, 1, 1, 0, 0, 1), (2000, 2, 29, 0, 0, 0), (2100, 1, 1, 0, 0, 0), (1, 1, 1, 0, 0, 1))
 
 
+def datetime_lookalike_text(rng) -> str:
+    """Twelve ASCII characters whose octets are at the same time a well-formed COSEM date-time (a year below 1920 or in the first
+    centuries, month, day, hour ... all below 0x80): text is text, whatever else its octets could mean."""
+    year = rng.choice((rng.randint(0x0701, 0x077F), rng.randint(1, 0x7F), 0x0064))
+    month, day = rng.randint(1, 12), rng.randint(1, 28)
+    b = bytes((year >> 8, year & 0xFF, month, day, rng.choice((1, 7, 0x7F)), rng.randrange(24), rng.randrange(60), rng.randrange(60), rng.randrange(100),
+               rng.choice((0x00, 0x00, 0x01, 0x02)), rng.randrange(0x80), rng.choice((0x00, 0x01, 0x7F))))
+    return b.decode("ascii")
+
+
 def clock_code(rng, default: tuple, tags: list) -> tuple:
     """The OBIS code in front of a list's clock element: usually the vendor's own, sometimes another code of the clock object
     (value groups C.D.E = 1.0.0 name the clock whatever A, B and F say; vendors differ in exactly these groups)."""
@@ -315,11 +325,11 @@ def aidon_case(rng, layout: str | None = None) -> Case:
             elements.append(ce.aidon_element(A_VER, "str", s))
             expect[names.name_of(A_VER)] = ("str", s)
         elif it == "id":
-            s = ascii_text(rng, 20)
+            s = ascii_text(rng, 20) if rng.random() > 0.04 else datetime_lookalike_text(rng)
             elements.append(ce.aidon_element(A_ID, "str", s))
             expect[names.name_of(A_ID)] = ("str", s)
         elif it == "type":
-            s = ascii_text(rng, 12)
+            s = ascii_text(rng, 12) if rng.random() > 0.04 else datetime_lookalike_text(rng)
             elements.append(ce.aidon_element(A_TYPE, "str", s))
             expect[names.name_of(A_TYPE)] = ("str", s)
         elif it == "clock":
@@ -469,7 +479,7 @@ def kamstrup_case(rng, layout: str | None = None, ct: bool | None = None) -> Cas
     pairs = []
     for it in items:
         if it == "id":
-            s = ascii_text(rng, 16)
+            s = ascii_text(rng, 16) if rng.random() > 0.04 else datetime_lookalike_text(rng)
             pairs.append((KM_ID, ce.visible_string(s)))
             expect["meter_id"] = ("str", s)
         elif it == "type":
